@@ -640,10 +640,11 @@ def strings():
 
 def classify_error(se):
     """'ub' / 'panic' / 'other'"""
-    if "evaluation panicked" in se or "the evaluated program panicked" in se:
-        return "panic"
-    if "E0080" in se:
+    msgs = re.findall(r"error\[E0080\]: (.*)", se)
+    if any("panicked" not in m for m in msgs):
         return "ub"
+    if msgs or "evaluation panicked" in se or "the evaluated program panicked" in se:
+        return "panic"
     return "other"
 
 
@@ -688,8 +689,15 @@ def run(out, tier, seed):
             if cls == "other" and "E0080" not in (se or ""):
                 # does not compile for a reason other than const evaluation: API drift in the tree under test
                 raise kv.Inconclusive("the CTFE crate does not compile against the current tree: %s" % first_error(se)[:300])
-            sig = "C01:const-eval-UB" if cls == "ub" else "C01:const-eval-assertion-failed"
             msg = first_error(se, 4)
+            if cls == "panic":
+                # a checked failure (a panic inside konst, or one of the crate's own value assertions) is not
+                # undefined behaviour: it belongs to the functional property of that function. It does stop the
+                # const evaluator from seeing the rest of the crate, so this engine decided nothing.
+                out.inconclusive.append("%s: the CTFE crate stopped at a const-evaluation panic (a functional failure, not UB: %s), the const-evaluation sanitizer did not see the rest" % (eng, msg[:200]))
+                out.notes.append("CTFE crate: const evaluation panicked at %s: %s" % (where.group(1) if where else "?", msg[:300]))
+                continue
+            sig = "C01:const-eval-UB"
             out.fail(sig + ":" + re.sub(r"[^A-Za-z0-9 _:-]", "", msg)[:90], "const evaluation", "%s at %s" % (src, where.group(1) if where else "?"), msg[:500], "every const item evaluates without undefined behaviour and every in-const assertion holds", eng, cmd="rustc %s%s" % ("+nightly -Zextra-const-ub-checks " if extra else "", src), detail=(se or "")[-1500:], source=src)
             continue
         rc2, so, se2 = cx.run(outp)
